@@ -59,6 +59,11 @@ def check_profile(p, fnd):
     if len(mine) != 1:
         bad('profile-name', 'top-level profiles %s; expected exactly one named %s' % ([b.name for b in top], name))
         return
+    for extra in top:
+        if extra.name != name:
+            # a second profile at the top level of the file cannot be found by its file name (flags manifests, stack,
+            # exec, local overrides) and the builders only treat the first header
+            bad('extra-top-level-profile name=%s' % extra.name, 'a second top-level profile `%s` besides the one named after the file' % extra.header.strip())
     b = mine[0]
     toks = re.sub(r'(flags|xattrs)\s*=\s*\([^)]*\)', ' ', b.rest).split()
     if toks:
